@@ -77,6 +77,16 @@ class SimLoop(asyncio.AbstractEventLoop):
             n += 1
         return n
 
+    def unretrieved_task_exceptions(self):
+        """exceptions of finished tasks that nobody retrieved: what asyncio reports through the loop's exception handler
+        ("Task exception was never retrieved") once the task is garbage collected"""
+        out = []
+        for t in self.tasks:
+            if t.done() and not t.cancelled() and getattr(t, "_log_traceback", False):
+                out.append(t.exception())
+                t._log_traceback = True
+        return out
+
     def pending_timers(self):
         self._timers = [t for t in self._timers if not t._cancelled]
         return self._timers
